@@ -880,6 +880,8 @@ func (f *Frame) builtinAppend(cc *ssa.CallCommon, args []Val, st *State, rt type
 
 func (f *Frame) builtinCopy(cc *ssa.CallCommon, args []Val, st *State, rt types.Type, pos token.Pos) Val {
 	e := f.e
+	// site "call copy#k": $arg0 destination, $arg1 source
+	e.siteCall(f, st, "copy", args, pos)
 	d, s := args[0], args[1]
 	sl := d.T.Underlying().(*types.Slice)
 	srt := e.sortOf(sl.Elem())
